@@ -32,8 +32,11 @@ package grandpa
 import (
 	stded "crypto/ed25519"
 	"encoding/binary"
+	"encoding/json"
 	"fmt"
 	"hash/fnv"
+	"os"
+	"runtime/debug"
 	"sort"
 	"strings"
 	"sync"
@@ -65,7 +68,8 @@ type c22Params struct {
 	Release    [][]int `json:"block_release_ms"` // [authority][block] ms after start; -1 never; 0 = present at start
 	NetSeed    uint64  `json:"net_seed"`
 	AdvSeed    uint64  `json:"adv_seed"`
-	Script     string  `json:"script"` // "" = randomised adversary, otherwise the name of a fixed scenario
+	Script     string  `json:"script"`                 // "" = randomised adversary, otherwise the name of a fixed scenario
+	Hold       [][]int `json:"link_hold_ms,omitempty"` // [from][to] extra delay of every honest message on that link
 	CapMs      int     `json:"wall_cap_ms"`
 }
 
@@ -165,6 +169,7 @@ type c22Sim struct {
 	headOf     map[int]int      // per honest node: tree index of the last successfully finalised block
 	roundOf    map[int]uint64
 	svcErr     map[int]string
+	svcDump    map[int]string
 	counters   map[string]int
 	byzDeliv   int
 	byzAccept  int
@@ -202,8 +207,8 @@ func (s *c22Sim) fate(from, to int, data []byte) []int {
 	h := fnv.New64a()
 	var b [24]byte
 	binary.LittleEndian.PutUint64(b[:8], s.p.NetSeed)
-	binary.LittleEndian.PutUint64(b[8:16], uint64(from))  //nolint:gosec
-	binary.LittleEndian.PutUint64(b[16:24], uint64(to)) //nolint:gosec
+	binary.LittleEndian.PutUint64(b[8:16], uint64(from)) //nolint:gosec
+	binary.LittleEndian.PutUint64(b[16:24], uint64(to))  //nolint:gosec
 	_, _ = h.Write(b[:])
 	_, _ = h.Write(data)
 	r := vcommon.NewRand(h.Sum64())
@@ -218,9 +223,13 @@ func (s *c22Sim) fate(from, to int, data []byte) []int {
 	if slow {
 		max = max*4 + 3*s.p.IntervalMs
 	}
-	out := []int{r.Intn(max + 1)}
+	hold := 0
+	if s.p.Hold != nil {
+		hold = s.p.Hold[from][to]
+	}
+	out := []int{hold + r.Intn(max+1)}
 	if r.Intn(100) < s.p.DupPct {
-		out = append(out, r.Intn(max+1)+r.Intn(2*s.p.IntervalMs+1))
+		out = append(out, hold+r.Intn(max+1)+r.Intn(2*s.p.IntervalMs+1))
 	}
 	return out
 }
@@ -261,13 +270,17 @@ func (s *c22Sim) recordVote(origin string, id ed25519.PublicKeyBytes, stage Subr
 
 // honestGossip is the OnGossip hook of honest node `from`.
 func (s *c22Sim) honestGossip(from int, gm GrandpaMessage) {
+	// every vote an honest service signs is part of the history, also while the execution is being stopped
+	// (finalisations are recorded until the services have stopped)
+	if m, ok := gm.(*VoteMessage); ok {
+		s.recordVote("honest", m.Message.AuthorityID, m.Message.Stage,
+			Vote{Hash: m.Message.BlockHash, Number: m.Message.Number}, m.Round, m.SetID, m.Message.Signature)
+	}
 	if s.closed.Load() {
 		return
 	}
 	switch m := gm.(type) {
 	case *VoteMessage:
-		s.recordVote("honest", m.Message.AuthorityID, m.Message.Stage,
-			Vote{Hash: m.Message.BlockHash, Number: m.Message.Number}, m.Round, m.SetID, m.Message.Signature)
 		s.count("honest_"+m.Message.Stage.String()+"_sent", 1)
 	case *CommitMessage:
 		s.count("honest_commit_sent", 1)
@@ -421,6 +434,34 @@ func (s *c22Sim) minRound() uint64 {
 	return m
 }
 
+// dumpNode describes the voting state of node i (diagnostics for a round loop that ended with an error).
+func (s *c22Sim) dumpNode(i int) string {
+	n := s.nodes[i]
+	svc := n.Service
+	var sb strings.Builder
+	fmt.Fprintf(&sb, "t=%dms round=%d head=b%d", time.Since(s.start).Milliseconds(), svc.state.round, s.tree.Index(svc.head.Hash()))
+	if h, err := n.Block.GetHighestFinalisedHeader(); err == nil {
+		fmt.Fprintf(&sb, " highestFinalised=b%d", s.tree.Index(h.Hash()))
+	}
+	hr, hs, _ := n.Block.GetHighestRoundAndSetID()
+	fmt.Fprintf(&sb, " highestRound=%d/%d best=b%d", hr, hs, s.tree.Index(n.Block.BestBlockHash()))
+	for _, st := range []Subround{prevote, precommit} {
+		fmt.Fprintf(&sb, " %ss={", st)
+		m := svc.prevotes
+		if st == precommit {
+			m = svc.precommits
+		}
+		m.Range(func(k, v any) bool {
+			sv := v.(*SignedVote)
+			fmt.Fprintf(&sb, "a%d:b%d ", s.authIndex(sv.AuthorityID), s.tree.Index(sv.Vote.Hash))
+			return true
+		})
+		sb.WriteString("}")
+	}
+	fmt.Fprintf(&sb, " pvEquiv=%d pcEquiv=%d", len(svc.pvEquivocations), len(svc.pcEquivocations))
+	return sb.String()
+}
+
 // importBlock adds tree block b to node i (late arrival of a block).
 func (s *c22Sim) importBlock(i, b int) {
 	node := s.nodes[i]
@@ -456,11 +497,16 @@ func (s *c22Sim) run() error {
 	}
 	s.start = time.Now()
 	done := make(chan int, len(s.hon))
+	trackerDone := make(chan int, len(s.hon))
 	for _, i := range s.hon {
 		i := i
 		svc := s.nodes[i].Service
-		// Service.Start() without its panic-on-error wrapper: the error of the round loop is recorded
-		svc.tracker.start()
+		// Service.Start() without its panic-on-error wrapper: the error of the round loop is recorded,
+		// and the two goroutines can be joined before the database is closed
+		go func() { // = tracker.start()
+			svc.tracker.handleBlocks()
+			trackerDone <- i
+		}()
 		go func() {
 			defer func() {
 				if r := recover(); r != nil {
@@ -471,8 +517,10 @@ func (s *c22Sim) run() error {
 				done <- i
 			}()
 			if err := svc.initiate(); err != nil {
+				dump := s.dumpNode(i)
 				s.mu.Lock()
 				s.svcErr[i] = err.Error()
+				s.svcDump[i] = dump
 				s.mu.Unlock()
 			}
 		}()
@@ -492,10 +540,19 @@ func (s *c22Sim) run() error {
 			}
 			return as[x].b < as[y].b
 		})
-		for _, a := range as {
-			i, a := i, a
-			s.after(s.ms(a.ms), func() { s.importBlock(i, a.b) })
+		// one chain of timers per node: blocks released at the same time are imported parent first
+		i := i
+		var next func(k int)
+		next = func(k int) {
+			for k < len(as) && time.Since(s.start) >= s.ms(as[k].ms) {
+				s.importBlock(i, as[k].b)
+				k++
+			}
+			if k < len(as) {
+				s.after(s.ms(as[k].ms)-time.Since(s.start), func() { next(k) })
+			}
 		}
+		next(0)
 	}
 	s.adv.begin()
 
@@ -518,22 +575,26 @@ func (s *c22Sim) run() error {
 	for _, i := range s.hon {
 		_ = s.nodes[i].Service.Stop()
 	}
-	stopped := 0
-	timeout := time.After(8 * time.Second)
+	// a round loop that does not come back from Stop (the engine blocked on its action channel while the
+	// voting round handler has already left) is counted; its node's database is then left open
+	loopDone, trDone := map[int]bool{}, map[int]bool{}
+	timeout := time.After(1500 * time.Millisecond)
 wait:
-	for stopped < len(s.hon) {
+	for len(loopDone) < len(s.hon) || len(trDone) < len(s.hon) {
 		select {
-		case <-done:
-			stopped++
+		case i := <-done:
+			loopDone[i] = true
+		case i := <-trackerDone:
+			trDone[i] = true
 		case <-timeout:
-			s.count("shutdown_incomplete", 1)
 			break wait
 		}
 	}
-	if stopped == len(s.hon) {
-		time.Sleep(40 * time.Millisecond) // tracker goroutines leave their current tick
-		for _, i := range s.hon {
+	for _, i := range s.hon {
+		if loopDone[i] && trDone[i] {
 			_ = s.nodes[i].DB.Close()
+		} else {
+			s.count("service_stop_did_not_return", 1)
 		}
 	}
 	return nil
@@ -989,11 +1050,13 @@ func (a *c22Adv) forgeCommits(round, setID uint64) {
 // fixed scenarios (regression corpus): the witnesses of the C18 defects (and of forged votes) embedded in a
 // running network. n=4, authority 3 is Byzantine, tree 0-1-{2-3, 4-5}.
 
-var c22ScriptNames = []string{"fork-commit-exact-two-thirds", "fork-commit-dup-authority", "fork-commit-garbage-pairs",
+var c22ScriptNames = []string{"estimate-not-carried-over", "fork-commit-exact-two-thirds", "fork-commit-dup-authority", "fork-commit-garbage-pairs",
 	"fork-commit-non-authorities", "fork-votes-garbage-sig", "fork-votes-non-authorities"}
 
 func (a *c22Adv) runScript(name string) {
 	switch name {
+	case "estimate-not-carried-over":
+		c22EstimateNotCarried(a)
 	case "fork-commit-exact-two-thirds":
 		c22ForkCommitExact(a)
 	case "fork-commit-dup-authority":
@@ -1006,6 +1069,33 @@ func (a *c22Adv) runScript(name string) {
 		c22ForkVotes(a, "garbage")
 	case "fork-votes-non-authorities":
 		c22ForkVotes(a, "outsiders")
+	}
+}
+
+// c22EstimateNotCarried (witness of known finding C22-K1): tree 0-1-{2, 3-4}, authority 2 is Byzantine. At
+// first only 0-1-2 is known: the three honest nodes prevote and precommit block 2 in round 1. Node 1's
+// messages to nodes 0 and 3 are slow. The Byzantine voter precommits block 1 towards nodes 0 and 3: they see
+// precommits {2, 2, 1}, finalise block 1 and leave round 1; node 1 sees {2, 2, 2} and finalises block 2. Then
+// blocks 3-4 arrive, the best chain of nodes 0 and 3 is now 1-3-4, they and the Byzantine voter prevote and
+// precommit block 4 in round 2 and finalise it.
+func c22EstimateNotCarried(a *c22Adv) {
+	s, t := a.s, a.s.tree
+	byz := s.p.Byz[0]
+	iv := s.p.IntervalMs
+	kp := s.keys[byz]
+	for _, to := range s.hon {
+		a.sendVote(kp, -1, to, prevote, t.Vote(2), 1, s.p.SetID, iv, "script-prevote", false)
+		blk := 1
+		if to == 1 {
+			blk = 2
+		}
+		a.sendVote(kp, -1, to, precommit, t.Vote(blk), 1, s.p.SetID, 3*iv, "script-precommit", false)
+		if to != 1 {
+			for k := 0; k < 4; k++ {
+				a.sendVote(kp, -1, to, prevote, t.Vote(4), 2, s.p.SetID, (8+2*k)*iv, "script-prevote", false)
+				a.sendVote(kp, -1, to, precommit, t.Vote(4), 2, s.p.SetID, (11+2*k)*iv, "script-precommit", false)
+			}
+		}
 	}
 }
 
@@ -1067,6 +1157,8 @@ func c22ForkCommitExact(a *c22Adv) {
 		}
 		a.sendVote(kp, -1, to, prevote, t.Vote(blk), round, s.p.SetID, 2*iv, "script-prevote", false)
 	}
+	// node 0 also gets the Byzantine precommit for block 5 as a vote: its own tally of block 5 is exactly 2 of 4
+	a.sendVote(kp, -1, s.hon[0], precommit, t.Vote(5), round, s.p.SetID, 4*iv, "script-precommit", false)
 	bv := verifSignVote(kp, precommit, t.Vote(5), round, s.p.SetID)
 	s.recordVote("byz", bv.AuthorityID, precommit, bv.Vote, round, s.p.SetID, bv.Signature)
 	var try func(k int)
@@ -1172,7 +1264,7 @@ func (a *c22Adv) observeScript(from int, gm GrandpaMessage) {
 func c22GenParams(c *vcommon.Case, thorough bool) *c22Params {
 	r := c.R
 	p := &c22Params{N: 4, Salt: r.Uint64(), NetSeed: r.Uint64(), AdvSeed: r.Uint64()}
-	if r.Chance(2, 5) {
+	if r.Chance(1, 3) {
 		p.N = 7
 	}
 	f := (p.N - 1) / 3
@@ -1218,7 +1310,7 @@ func c22GenParams(c *vcommon.Case, thorough bool) *c22Params {
 	if thorough && r.Chance(1, 3) {
 		p.IntervalMs = r.Range(30, 50)
 	}
-	p.Rounds = r.Range(3, 6)
+	p.Rounds = r.Range(2, 4)
 	p.DropPct = vcommon.Pick(r, []int{0, 0, 2, 5, 10})
 	p.DupPct = vcommon.Pick(r, []int{0, 5, 15})
 	p.MaxDelayMs = vcommon.Pick(r, []int{0, 3, p.IntervalMs / 2, p.IntervalMs, 2 * p.IntervalMs})
@@ -1252,7 +1344,7 @@ func c22GenParams(c *vcommon.Case, thorough bool) *c22Params {
 		}
 		p.Release[i] = rel
 	}
-	p.CapMs = p.Rounds*14*p.IntervalMs + 1500
+	p.CapMs = p.Rounds*12*p.IntervalMs + 1200
 	return p
 }
 
@@ -1266,6 +1358,13 @@ func c22ScriptParams(idx int) *c22Params {
 	}
 	late := 12 * p.IntervalMs
 	switch {
+	case name == "estimate-not-carried-over":
+		p.Byz = []int{2}
+		p.Parents = []int{-1, 0, 1, 1, 3}
+		p.Release = [][]int{{0, 0, 0, 6 * p.IntervalMs, 6 * p.IntervalMs}, {0, 0, 0, -1, -1}, {0, 0, 0, 0, 0},
+			{0, 0, 0, 6 * p.IntervalMs, 6 * p.IntervalMs}}
+		p.Hold = [][]int{{0, 0, 0, 0}, {10 * p.IntervalMs, 0, 0, 10 * p.IntervalMs}, {0, 0, 0, 0}, {0, 0, 0, 0}}
+		p.Rounds = 2
 	case name == "fork-commit-exact-two-thirds":
 		// nodes 0 and 1 receive the fork 2-3 only late, node 2 receives the fork 4-5 only late
 		for _, i := range []int{0, 1} {
@@ -1289,6 +1388,7 @@ func c22ScriptParams(idx int) *c22Params {
 
 type c22Verdict struct {
 	Conflicts   []map[string]any
+	KnownK1     []map[string]any // conflicts that the predicate attributes to known finding C22-K1
 	Regress     []map[string]any
 	Unjustified []map[string]any
 	HonestEquiv []map[string]any
@@ -1305,6 +1405,7 @@ func c22Check(p *c22Params, t *verifTree, keys []*ed25519.Keypair, events []c22E
 	type rs struct{ r, s uint64 }
 	pcs := map[rs]map[int]map[Vote]bool{}
 	stageVotes := map[string]map[Vote]bool{} // honest equivocation: (auth, round, set, stage) -> votes
+	var honestVotes []c22VoteRec             // correctly signed votes of honest services
 	for _, vr := range votes {
 		if vr.Auth < 0 {
 			continue
@@ -1314,6 +1415,7 @@ func c22Check(p *c22Params, t *verifTree, keys []*ed25519.Keypair, events []c22E
 			continue
 		}
 		if vr.Origin == "honest" {
+			honestVotes = append(honestVotes, vr)
 			k := fmt.Sprintf("%d/%d/%d/%d", vr.Auth, vr.Round, vr.SetID, vr.Stage)
 			if stageVotes[k] == nil {
 				stageVotes[k] = map[Vote]bool{}
@@ -1411,9 +1513,47 @@ func c22Check(p *c22Params, t *verifTree, keys []*ed25519.Keypair, events []c22E
 			seen[k] = true
 			ca, wa := support(a.Block, a.Round, a.SetID)
 			cb, wb := support(b.Block, b.Round, b.SetID)
-			v.Conflicts = append(v.Conflicts, map[string]any{"first": a, "second": b,
+			w := map[string]any{"first": a, "second": b,
 				"first_supermajority": ca*3 > 2*n, "first_precommit_authorities": wa,
-				"second_supermajority": cb*3 > 2*n, "second_precommit_authorities": wb})
+				"second_supermajority": cb*3 > 2*n, "second_precommit_authorities": wb}
+			// Attribution to known finding C22-K1 (a voter does not carry the estimate of round r into round
+			// r+1). Decided from the history alone: both finalisations are backed by a genuine supermajority of
+			// correctly signed precommits, no honest service equivocated, the two rounds differ, and an honest
+			// voter that precommitted the earlier block (or a descendant) in the earlier round voted, in a
+			// later round up to the later finalisation, for a block on another fork.
+			lo, hi := a, b
+			if lo.Round > hi.Round {
+				lo, hi = hi, lo
+			}
+			var switched []map[string]any
+			if ca*3 > 2*n && cb*3 > 2*n && len(v.HonestEquiv) == 0 && lo.SetID == hi.SetID && lo.Round < hi.Round {
+				for _, pc := range honestVotes {
+					if pc.Stage != byte(precommit) || pc.Round != lo.Round || pc.SetID != lo.SetID || pc.Block < 0 ||
+						!t.IsAncestorOrEqual(lo.Block, pc.Block) {
+						continue
+					}
+					for _, lv := range honestVotes {
+						if lv.Auth != pc.Auth || lv.SetID != lo.SetID || lv.Round <= lo.Round || lv.Round > hi.Round ||
+							lv.Block < 0 {
+							continue
+						}
+						if !t.IsAncestorOrEqual(lo.Block, lv.Block) && !t.IsAncestorOrEqual(lv.Block, lo.Block) {
+							switched = append(switched, map[string]any{"authority": pc.Auth,
+								"precommitted_block": pc.Block, "in_round": pc.Round,
+								"later_voted_block": lv.Block, "later_round": lv.Round, "later_stage": lv.Stage})
+						}
+					}
+				}
+			}
+			if len(switched) > 0 {
+				if len(switched) > 6 {
+					switched = switched[:6]
+				}
+				w["honest_voters_that_left_the_finalised_chain"] = switched
+				v.KnownK1 = append(v.KnownK1, w)
+			} else {
+				v.Conflicts = append(v.Conflicts, w)
+			}
 		}
 	}
 	return v
@@ -1422,12 +1562,21 @@ func c22Check(p *c22Params, t *verifTree, keys []*ed25519.Keypair, events []c22E
 // ---------------------------------------------------------------------------------------------
 // one execution
 
+var c22ReportMu sync.Mutex
+
 func c22Execute(c *vcommon.Case, p *c22Params) {
+	defer func() {
+		if r := recover(); r != nil {
+			c22ReportMu.Lock()
+			c.Violation("panic", fmt.Sprint(r), map[string]any{"params": p, "stack": string(debug.Stack())})
+			c22ReportMu.Unlock()
+		}
+	}()
 	tree := verifTreeFromParents(p.Parents, p.Salt)
 	keys := verifKeypairs(p.Salt^0xc22, p.N)
 	s := &c22Sim{c: c, p: p, tree: tree, keys: keys, outs: verifKeypairs(p.Salt^0x0ddba11, 3),
 		nodes: map[int]*verifNode{}, hon: p.honest(), voteSeen: map[string]bool{}, deliv: map[int][]string{},
-		headOf: map[int]int{}, roundOf: map[int]uint64{}, svcErr: map[int]string{}, counters: map[string]int{}}
+		headOf: map[int]int{}, roundOf: map[int]uint64{}, svcErr: map[int]string{}, svcDump: map[int]string{}, counters: map[string]int{}}
 	s.adv = &c22Adv{s: s, r: vcommon.NewRand(p.AdvSeed), stageSeen: map[string]bool{},
 		votes: map[uint64]map[byte]map[int]*VoteMessage{}, commits: map[uint64]*CommitMessage{}, forged: map[string]int{}}
 	if err := s.run(); err != nil {
@@ -1531,8 +1680,21 @@ func c22Execute(c *vcommon.Case, p *c22Params) {
 		w["deliveries"] = dl
 		if len(s.svcErr) > 0 {
 			w["round_loop_errors"] = s.svcErr
+			w["round_loop_error_state"] = s.svcDump
 		}
 		return w
+	}
+	if os.Getenv("C22_DEBUG") != "" {
+		b, _ := json.Marshal(witness(map[string]any{"known_k1": v.KnownK1, "conflicts": v.Conflicts}))
+		fmt.Printf("C22_DEBUG %s\n", b)
+	}
+	c22ReportMu.Lock()
+	defer c22ReportMu.Unlock()
+	c.Count("conflicts_attributed_to_C22-K1", len(v.KnownK1))
+	for _, x := range v.KnownK1 {
+		c.Known("C22-K1", "two blocks on different forks were finalised in different rounds, each by a genuine "+
+			"supermajority: honest voters precommitted the first block and voted for another fork in a later round",
+			witness(x))
 	}
 	for _, x := range v.Unjustified {
 		c.Violation("finalised-without-supermajority",
@@ -1549,6 +1711,61 @@ func c22Execute(c *vcommon.Case, p *c22Params) {
 	}
 }
 
+const c22Batch = 3
+
+// c22StopCase (regression corpus): what the voting round handler does when the finalisation engine has been
+// stopped, ie. has closed the action channel, in a round in which the node has already pre-voted and its best
+// block has changed since. An honest voter signs at most one pre-vote per round.
+func c22StopCase(c *vcommon.Case) {
+	tree := verifTreeFromParents([]int{-1, 0, 1, 1, 3}, 2222)
+	keys := verifKeypairs(0x5709, 4)
+	node, err := verifNewNode(tree, keys, verifNodeOpts{Self: 0, Interval: 20 * time.Millisecond,
+		SkipBlock: func(b int) bool { return b >= 3 }})
+	if err != nil {
+		c.Inconclusive("set-up failed: " + err.Error())
+		return
+	}
+	defer node.Close()
+	svc := node.Service
+	if err = svc.initiateRound(); err != nil {
+		c.Inconclusive("initiateRound: " + err.Error())
+		return
+	}
+	ch := make(chan engineAction)
+	h := newvotingRoundHandler(svc, ch)
+	runDone := make(chan error, 1)
+	go func() { runDone <- h.Run() }()
+	ch <- determinePrevote // the engine's pre-vote timer fired: the node pre-votes block 2
+	for _, b := range []int{3, 4} {
+		if err = node.Block.AddBlock(&types.Block{Header: *tree.Headers[b], Body: types.Body{}}); err != nil {
+			c.Inconclusive("import: " + err.Error())
+			return
+		}
+	}
+	close(ch) // = finalisationEngine.Stop()
+	time.Sleep(60 * time.Millisecond)
+	_ = h.Stop()
+	<-runDone
+	node.Net.mu.Lock()
+	gossiped := append([]GrandpaMessage{}, node.Net.Gossiped...)
+	node.Net.mu.Unlock()
+	blocks := map[int]int{}
+	for _, gm := range gossiped {
+		if vm, ok := gm.(*VoteMessage); ok && vm.Message.Stage == prevote && vm.Round == 1 {
+			blocks[tree.Index(vm.Message.BlockHash)]++
+		}
+	}
+	c.Eval(1)
+	c.Count("stop_case_prevotes_signed", len(gossiped))
+	c.Count("script:stop-closed-action-channel", 1)
+	if len(blocks) > 1 {
+		c.Violation("honest-equivocation", "the voting round handler signed a second, different pre-vote in the same "+
+			"round after the finalisation engine had closed the action channel",
+			map[string]any{"tree": tree.Shape(), "round": 1, "prevotes_signed_per_block": fmt.Sprint(blocks),
+				"steps": "initiateRound; action determinePrevote (block 2); import blocks 3,4; close(action channel)"})
+	}
+}
+
 // TestVerifC22 is the C22 check.
 func TestVerifC22(t *testing.T) {
 	r := vcommon.Start(t, "C22")
@@ -1556,12 +1773,26 @@ func TestVerifC22(t *testing.T) {
 	r.Floor("executions_finalised_on_2+_nodes", 12)
 	r.Floor("executions_finalised_on_2+_nodes_with_byzantine_deliveries", 8)
 	r.Floor("deliveries_byzantine", 100)
-	r.Floor("script:fork-commit-exact-two-thirds", 1)
+	for _, name := range c22ScriptNames {
+		r.Floor("script:"+name, 1)
+	}
 
+	r.Floor("script:stop-closed-action-channel", 1)
+	r.Fixed("stop", 1, c22StopCase)
 	r.Fixed("script", len(c22ScriptNames), func(c *vcommon.Case) {
 		c22Execute(c, c22ScriptParams(c.Idx))
 	})
-	r.Cases("sim", r.Scale(48), func(c *vcommon.Case) {
-		c22Execute(c, c22GenParams(c, r.Thorough()))
+	// one case = a batch of executions that run side by side (an execution mostly waits for the services' timers)
+	r.Cases("sim", r.Scale(20), func(c *vcommon.Case) {
+		var wg sync.WaitGroup
+		for k := 0; k < c22Batch; k++ {
+			p := c22GenParams(c, r.Thorough())
+			wg.Add(1)
+			go func() {
+				defer wg.Done()
+				c22Execute(c, p)
+			}()
+		}
+		wg.Wait()
 	})
 }
